@@ -1,0 +1,887 @@
+// Verification contracts (comment-only, compiled only with the "verif" build tag; read by /verif/govc).
+
+//go:build verif
+// +build verif
+
+package vm
+
+// Contracts for the EVM stack, the integer pool and the computational opcodes — property C15:
+// "every arithmetic, comparison, bitwise, shift opcode returns the result defined by the EVM specification modulo
+// 2^256 (division by zero, signed edge cases, shifts >= 256), never disturbs other stack items".
+//
+// Model. A stack is `st.data []*big.Int`: slot k of the backing array holds a *reference*; the stack view of the
+// property is  S[i] = big(st.data[i]).  Opcodes compute in place through these references and recycle popped
+// references through the integer pool (another Stack), so the property needs an ownership invariant (c15Own):
+// stack slots are pairwise distinct non-nil references, pool entries likewise, no reference is in both, none is one of
+// the package-level limit values, and every stack value is a 256-bit word. Every opcode contract states its result
+// over the WHOLE stack (length, new top, all lower slots keep reference and value), requires the instances of c15Own
+// for the slots it touches (c15PreK, proved to follow from c15Own) and proves old(c15Own) ==> c15Own — the last part is
+// what excludes "a pooled reference is still reachable from the stack".
+
+// ---------------------------------------------------------------------------------------------------------------
+// Specification vocabulary
+// ---------------------------------------------------------------------------------------------------------------
+
+// package-level limit values hold what their names say (see common/math: c15MathConsts)
+//@ spec func c15Consts() bool =
+//@     c15MathConsts() && tt255 != nil && bigZero != nil && big(tt255) == 2^255 && big(bigZero) == 0
+
+//@ spec func c15NotConst(p: *big.Int) bool = c15NotMathConst(p) && p != tt255 && p != bigZero
+
+// absolute cell index k of the backing array belongs to the live part of s
+//@ spec func c15In(s: *Stack, k: int) bool = off(s.data) <= k && k < off(s.data) + len(s.data)
+
+// every live slot holds a non-nil reference that is not a limit value
+//@ spec func c15Slots(s: *Stack) bool =
+//@     forall k: int :: c15In(s, k) ==> elems(s.data)[k] != nil && c15NotConst(elems(s.data)[k])
+
+// live slots hold pairwise distinct references
+//@ spec func c15Distinct(s: *Stack) bool =
+//@     forall i: int, j: int :: c15In(s, i) && c15In(s, j) && elems(s.data)[i] == elems(s.data)[j] ==> i == j
+
+// no reference is live in both s and p
+//@ spec func c15Sep(s: *Stack, p: *Stack) bool =
+//@     forall i: int, j: int :: c15In(s, i) && c15In(p, j) ==> elems(s.data)[i] != elems(p.data)[j]
+
+// every live slot's value is a 256-bit word
+//@ spec func c15Words(s: *Stack) bool =
+//@     forall k: int :: c15In(s, k) ==> 0 <= big(elems(s.data)[k]) && big(elems(s.data)[k]) < 2^256
+
+// reference r occurs in no live slot of s
+//@ spec func c15NotIn(r: *big.Int, s: *Stack) bool =
+//@     forall k: int :: c15In(s, k) ==> elems(s.data)[k] != r
+
+// the two stacks are different objects with different backing arrays
+//@ spec func c15Apart(s: *Stack, p: *Stack) bool =
+//@     s != nil && p != nil && s != p && (base(s.data) != base(p.data) || base(s.data) == 0)
+
+// ---------------------------------------------------------------------------------------------------------------
+// Stack
+// ---------------------------------------------------------------------------------------------------------------
+
+// push: append one reference. The backing array may be reallocated (fresh) when the capacity is exhausted; in both
+// cases the content array is the old one with d stored behind the old last slot, and the offset is kept.
+//@ func (*Stack).push props C15
+//@ panics none
+//@ requires st != nil && len(st.data) < 2^62
+//@ modifies st.data, elems(st.data)
+//@ ensures [len] len(st.data) == old(len(st.data)) + 1 && off(st.data) == old(off(st.data))
+//@ ensures [content] elems(st.data) == store(old(elems(st.data)), old(off(st.data) + len(st.data)), d)
+//@ ensures [in-place] old(len(st.data)) < old(cap(st.data)) && old(base(st.data)) != 0 ==> base(st.data) == old(base(st.data)) && cap(st.data) == old(cap(st.data))
+//@ ensures [realloc] !(old(len(st.data)) < old(cap(st.data)) && old(base(st.data)) != 0) ==> fresh(st.data) && cap(st.data) >= len(st.data)
+
+// pop: return the top reference, shrink by one; the backing array is not written.
+//@ func (*Stack).pop props C15
+//@ panics none
+//@ requires st != nil && len(st.data) >= 1 && len(st.data) < 2^62
+//@ modifies st.data
+//@ ensures [top] ret == old(st.data[len(st.data) - 1])
+//@ ensures [shrink] st.data == old(st.data[:len(st.data) - 1])
+
+//@ func (*Stack).peek props C15
+//@ panics none
+//@ requires st != nil && len(st.data) >= 1 && len(st.data) < 2^62
+//@ pure
+//@ ensures [top] result == st.data[len(st.data) - 1]
+
+//@ func (*Stack).len props C15
+//@ panics none
+//@ requires st != nil
+//@ pure
+//@ ensures [len] result == len(st.data)
+
+// Back(n): the n-th reference from the top (0 = top).
+//@ func (*Stack).Back props C15
+//@ panics none
+//@ requires st != nil && 0 <= n && n < len(st.data) && len(st.data) < 2^62
+//@ pure
+//@ ensures [nth] result == st.data[len(st.data) - n - 1]
+
+// swap(n): exchange the top slot with the n-th slot counted from 1 at the top; nothing else moves.
+//@ func (*Stack).swap props C15
+//@ panics none
+//@ requires st != nil && 1 <= n && n <= len(st.data) && len(st.data) < 2^62
+//@ modifies st.data[len(st.data) - n], st.data[len(st.data) - 1]
+//@ ensures [swapped] st.data[len(st.data) - n] == old(st.data[len(st.data) - 1]) && st.data[len(st.data) - 1] == old(st.data[len(st.data) - n])
+
+// ---------------------------------------------------------------------------------------------------------------
+// Integer pool
+// ---------------------------------------------------------------------------------------------------------------
+
+// get: the top pool entry (removed from the pool), or a new zero integer when the pool is empty. The value of a
+// recycled integer is arbitrary.
+//@ func (*intPool).get props C15
+//@ panics none
+//@ requires p != nil && p.pool != nil && len(p.pool.data) < 2^62
+//@ modifies p.pool.data
+//@ ensures [recycled] old(len(p.pool.data)) > 0 ==> result == old(p.pool.data[len(p.pool.data) - 1]) && p.pool.data == old(p.pool.data[:len(p.pool.data) - 1])
+//@ ensures [new] old(len(p.pool.data)) == 0 ==> fresh(result) && big(result) == 0 && p.pool.data == old(p.pool.data)
+
+// getZero: as get, and the integer is zero. (The recycled entry is written: it must be non-nil.)
+//@ func (*intPool).getZero props C15
+//@ panics none
+//@ requires p != nil && p.pool != nil && len(p.pool.data) < 2^62
+//@ requires len(p.pool.data) > 0 ==> p.pool.data[len(p.pool.data) - 1] != nil
+//@ modifies p.pool.data, big(p.pool.data[len(p.pool.data) - 1])
+//@ ensures [recycled] old(len(p.pool.data)) > 0 ==> result == old(p.pool.data[len(p.pool.data) - 1]) && p.pool.data == old(p.pool.data[:len(p.pool.data) - 1])
+//@ ensures [new] old(len(p.pool.data)) == 0 ==> fresh(result) && p.pool.data == old(p.pool.data)
+//@ ensures [zero] big(result) == 0
+//@ ensures [new-nowrite] old(len(p.pool.data)) == 0 ==> big(old(p.pool.data[len(p.pool.data) - 1])) == old(big(p.pool.data[len(p.pool.data) - 1]))
+
+// put: append the given references to the pool unless it already holds more than poolLimit entries. No big integer
+// is written (verifyPool is false in this build). The argument array must not be the pool's own backing array.
+//@ func (*intPool).put props C15
+//@ panics none
+//@ requires p != nil && p.pool != nil && len(p.pool.data) < 2^61 && len(is) < 2^61
+//@ requires base(is) != base(p.pool.data)
+//@ let n0 = len(p.pool.data)
+//@ let o = off(p.pool.data)
+//@ modifies p.pool.data, elems(p.pool.data)
+//@ ensures [full] n0 > 256 ==> p.pool.data == old(p.pool.data) && elems(p.pool.data) == old(elems(p.pool.data))
+//@ ensures [len] n0 <= 256 ==> len(p.pool.data) == n0 + len(is) && off(p.pool.data) == o
+//@ ensures [kept] n0 <= 256 ==> forall k: int :: o <= k && k < o + n0 ==> elems(p.pool.data)[k] == old(elems(p.pool.data)[k])
+//@ ensures [added] n0 <= 256 ==> forall k: int :: o + n0 <= k && k < o + n0 + len(is) ==> elems(p.pool.data)[k] == is[k - o - n0]
+//@ ensures [base] base(p.pool.data) == old(base(p.pool.data)) || fresh(p.pool.data)
+//@ loop #1 invariant [idx] -1 <= rangeindex && rangeindex < len(is) && p.pool == old(p.pool)
+//@ loop #1 invariant [len] len(p.pool.data) == n0 + rangeindex + 1 && off(p.pool.data) == o
+//@ loop #1 invariant [kept] forall k: int :: o <= k && k < o + n0 ==> elems(p.pool.data)[k] == old(elems(p.pool.data)[k])
+//@ loop #1 invariant [added] forall k: int :: o + n0 <= k && k <= o + n0 + rangeindex ==> elems(p.pool.data)[k] == is[k - o - n0]
+//@ loop #1 invariant [base] base(p.pool.data) == old(base(p.pool.data)) || (base(p.pool.data) >= old(alloc()) && base(p.pool.data) < alloc())
+//@ loop #1 invariant [is-fixed] forall k: int :: 0 <= k && k < len(is) ==> is[k] == old(is[k])
+//@ loop #1 invariant [frame-big] forall r: *big.Int :: big(r) == old(big(r))
+//@ loop #1 invariant [frame-data] forall s: *Stack :: s != old(p.pool) ==> s.data == old(s.data)
+//@ loop #1 invariant [frame-elems] forall a: *[1]*big.Int :: a != old(base(p.pool.data)) && a < old(alloc()) ==> elems(a) == old(elems(a))
+//@ loop #1 decreases len(is) - rangeindex
+
+
+// ---------------------------------------------------------------------------------------------------------------
+// Ownership invariant of one execution frame (stack + the interpreter's integer pool)
+// ---------------------------------------------------------------------------------------------------------------
+
+// The part of the invariant without reference distinctness. 1024 is params.StackLimit (enforced by the interpreter
+// before an opcode runs, via maxStack); 272 = poolLimit + 16 bounds the pool: put adds at most 16 references and only
+// when the pool holds at most poolLimit entries.
+//@ spec func c15Base(s: *Stack, in: *EVMInterpreter) bool =
+//@     in != nil && in.intPool != nil && c15Apart(s, in.intPool.pool) &&
+//@     len(s.data) <= 1024 && len(in.intPool.pool.data) <= 272 &&
+//@     c15Consts() && c15Slots(s) && c15Words(s) && c15Slots(in.intPool.pool)
+
+// THE invariant: c15Base and all references held by the stack and by the pool are pairwise distinct.
+//@ spec func c15Own(s: *Stack, in: *EVMInterpreter) bool =
+//@     c15Base(s, in) && c15Distinct(s) && c15Distinct(in.intPool.pool) && c15Sep(s, in.intPool.pool)
+
+// What an opcode that touches the top k slots needs from c15Own (its instances for the touched references): the k top
+// references are pairwise distinct, occur nowhere below the top k slots, and are not in the pool. These are the
+// preconditions of the opcode contracts; `opJumpdest [own-gives-preK]` proves c15Own && len >= k ==> c15PreK, and every
+// opcode proves old(c15Own) ==> c15Own (clauses own-base, own-distinct, own-pool, own-sep), so the chain  c15Own -> c15PreK -> opcode -> c15Own  is closed.
+// (The two-variable distinctness quantifiers are kept out of the assumptions: the solvers cannot build models for them
+// reliably, which the vacuity guards of the engine need; see engine_requests/C15.md.)
+//@ spec func c15NotBelow(r: *big.Int, s: *Stack, m: int) bool =
+//@     forall k: int :: off(s.data) <= k && k < off(s.data) + m ==> elems(s.data)[k] != r
+//@ spec func c15Mine(r: *big.Int, s: *Stack, in: *EVMInterpreter, m: int) bool =
+//@     c15NotBelow(r, s, m) && c15NotIn(r, in.intPool.pool)
+//@ spec func c15Pre1(s: *Stack, in: *EVMInterpreter) bool =
+//@     c15Base(s, in) && len(s.data) >= 1 &&
+//@     c15Mine(s.data[len(s.data) - 1], s, in, len(s.data) - 1)
+//@ spec func c15Pre2(s: *Stack, in: *EVMInterpreter) bool =
+//@     c15Base(s, in) && len(s.data) >= 2 && s.data[len(s.data) - 1] != s.data[len(s.data) - 2] &&
+//@     c15Mine(s.data[len(s.data) - 1], s, in, len(s.data) - 2) && c15Mine(s.data[len(s.data) - 2], s, in, len(s.data) - 2)
+//@ spec func c15Pre3(s: *Stack, in: *EVMInterpreter) bool =
+//@     c15Base(s, in) && len(s.data) >= 3 &&
+//@     s.data[len(s.data) - 1] != s.data[len(s.data) - 2] && s.data[len(s.data) - 1] != s.data[len(s.data) - 3] && s.data[len(s.data) - 2] != s.data[len(s.data) - 3] &&
+//@     c15Mine(s.data[len(s.data) - 1], s, in, len(s.data) - 3) && c15Mine(s.data[len(s.data) - 2], s, in, len(s.data) - 3) &&
+//@     c15Mine(s.data[len(s.data) - 3], s, in, len(s.data) - 3)
+// for opcodes that take an integer from the pool: the pool's top entry (the one get returns) is not on the stack
+//@ spec func c15PoolTop(s: *Stack, in: *EVMInterpreter) bool =
+//@     len(in.intPool.pool.data) > 0 ==> c15NotIn(in.intPool.pool.data[len(in.intPool.pool.data) - 1], s)
+
+// slots 0 .. m-1 keep their reference and their value ("never disturbs other stack items")
+//@ spec func c15Keep(s: *Stack, m: int) bool =
+//@     off(s.data) == old(off(s.data)) &&
+//@     forall k: int :: off(s.data) <= k && k < off(s.data) + m ==>
+//@         elems(s.data)[k] == old(elems(s.data)[k]) && big(elems(s.data)[k]) == old(big(elems(s.data)[k]))
+
+// JUMPDEST does nothing; its contract carries the instantiation lemmas  c15Own ==> c15PreK  and the no-op frame.
+//@ func opJumpdest props C15
+//@ panics none
+//@ requires stack != nil && interpreter != nil
+//@ modifies nothing
+//@ ensures [own-gives-pre1] c15Own(stack, interpreter) && len(stack.data) >= 1 ==> c15Pre1(stack, interpreter)
+//@ ensures [own-gives-pre2] c15Own(stack, interpreter) && len(stack.data) >= 2 ==> c15Pre2(stack, interpreter)
+//@ ensures [own-gives-pre3] c15Own(stack, interpreter) && len(stack.data) >= 3 ==> c15Pre3(stack, interpreter)
+//@ ensures [own-gives-pooltop] c15Own(stack, interpreter) ==> c15PoolTop(stack, interpreter)
+//@ ensures [ret] isnil(result0) && result1 == nil
+
+// ---------------------------------------------------------------------------------------------------------------
+// Arithmetic opcodes.  mu[0] is the top of the stack (a), mu[1] the next (b), mu[2] the third (c); mu'[0] the new top.
+// ---------------------------------------------------------------------------------------------------------------
+// ADD: mu'[0] = (mu[0] + mu[1]) mod 2^256
+//@ func opAdd props C15
+//@ panics none
+//@ requires c15Pre2(stack, interpreter)
+//@ let n = len(stack.data)
+//@ let a = big(stack.data[n - 1])
+//@ let b = big(stack.data[n - 2])
+//@ modifies stack.data, big(stack.data[n - 2]), interpreter.intPool.pool.data, elems(interpreter.intPool.pool.data)
+//@ ensures [len] len(stack.data) == n - 1
+//@ ensures [result] big(stack.data[n - 2]) == (a + b) % 2^256
+//@ ensures [others] c15Keep(stack, n - 2)
+//@ ensures [own-base] old(c15Own(stack, interpreter)) ==> c15Base(stack, interpreter)
+//@ ensures [own-distinct] old(c15Own(stack, interpreter)) ==> c15Distinct(stack)
+//@ ensures [own-pool] old(c15Own(stack, interpreter)) ==> c15Distinct(interpreter.intPool.pool)
+//@ ensures [own-sep] old(c15Own(stack, interpreter)) ==> c15Sep(stack, interpreter.intPool.pool)
+//@ ensures [ret] isnil(result0) && result1 == nil
+// SUB: mu'[0] = (mu[0] - mu[1]) mod 2^256
+//@ func opSub props C15
+//@ panics none
+//@ requires c15Pre2(stack, interpreter)
+//@ let n = len(stack.data)
+//@ let a = big(stack.data[n - 1])
+//@ let b = big(stack.data[n - 2])
+//@ modifies stack.data, big(stack.data[n - 2]), interpreter.intPool.pool.data, elems(interpreter.intPool.pool.data)
+//@ ensures [len] len(stack.data) == n - 1
+//@ ensures [result] big(stack.data[n - 2]) == (a - b) % 2^256
+//@ ensures [others] c15Keep(stack, n - 2)
+//@ ensures [own-base] old(c15Own(stack, interpreter)) ==> c15Base(stack, interpreter)
+//@ ensures [own-distinct] old(c15Own(stack, interpreter)) ==> c15Distinct(stack)
+//@ ensures [own-pool] old(c15Own(stack, interpreter)) ==> c15Distinct(interpreter.intPool.pool)
+//@ ensures [own-sep] old(c15Own(stack, interpreter)) ==> c15Sep(stack, interpreter.intPool.pool)
+//@ ensures [ret] isnil(result0) && result1 == nil
+// MUL: mu'[0] = (mu[0] * mu[1]) mod 2^256  (computed into the popped top reference, which is pushed back)
+//@ func opMul props C15
+//@ panics none
+//@ requires c15Pre2(stack, interpreter)
+//@ let n = len(stack.data)
+//@ let a = big(stack.data[n - 1])
+//@ let b = big(stack.data[n - 2])
+//@ modifies stack.data, stack.data[n - 2], big(stack.data[n - 1]), interpreter.intPool.pool.data, elems(interpreter.intPool.pool.data)
+//@ ensures [len] len(stack.data) == n - 1
+//@ ensures [result] big(stack.data[n - 2]) == (a * b) % 2^256
+//@ ensures [others] c15Keep(stack, n - 2)
+//@ ensures [own-base] old(c15Own(stack, interpreter)) ==> c15Base(stack, interpreter)
+//@ ensures [own-distinct] old(c15Own(stack, interpreter)) ==> c15Distinct(stack)
+//@ ensures [own-pool] old(c15Own(stack, interpreter)) ==> c15Distinct(interpreter.intPool.pool)
+//@ ensures [own-sep] old(c15Own(stack, interpreter)) ==> c15Sep(stack, interpreter.intPool.pool)
+//@ ensures [ret] isnil(result0) && result1 == nil
+// DIV: mu'[0] = 0 if mu[1] == 0, else floor(mu[0] / mu[1])
+//@ func opDiv props C15
+//@ panics none
+//@ requires c15Pre2(stack, interpreter)
+//@ let n = len(stack.data)
+//@ let a = big(stack.data[n - 1])
+//@ let b = big(stack.data[n - 2])
+//@ modifies stack.data, big(stack.data[n - 2]), interpreter.intPool.pool.data, elems(interpreter.intPool.pool.data)
+//@ ensures [len] len(stack.data) == n - 1
+//@ ensures [result] big(stack.data[n - 2]) == (if b == 0 then 0 else a / b)
+//@ ensures [others] c15Keep(stack, n - 2)
+//@ ensures [own-base] old(c15Own(stack, interpreter)) ==> c15Base(stack, interpreter)
+//@ ensures [own-distinct] old(c15Own(stack, interpreter)) ==> c15Distinct(stack)
+//@ ensures [own-pool] old(c15Own(stack, interpreter)) ==> c15Distinct(interpreter.intPool.pool)
+//@ ensures [own-sep] old(c15Own(stack, interpreter)) ==> c15Sep(stack, interpreter.intPool.pool)
+//@ ensures [ret] isnil(result0) && result1 == nil
+// MOD: mu'[0] = 0 if mu[1] == 0, else mu[0] mod mu[1]
+//@ func opMod props C15
+//@ panics none
+//@ requires c15Pre2(stack, interpreter)
+//@ let n = len(stack.data)
+//@ let a = big(stack.data[n - 1])
+//@ let b = big(stack.data[n - 2])
+//@ modifies stack.data, stack.data[n - 2], big(stack.data[n - 1]), interpreter.intPool.pool.data, elems(interpreter.intPool.pool.data)
+//@ ensures [len] len(stack.data) == n - 1
+//@ ensures [result] big(stack.data[n - 2]) == (if b == 0 then 0 else a % b)
+//@ ensures [others] c15Keep(stack, n - 2)
+//@ ensures [own-base] old(c15Own(stack, interpreter)) ==> c15Base(stack, interpreter)
+//@ ensures [own-distinct] old(c15Own(stack, interpreter)) ==> c15Distinct(stack)
+//@ ensures [own-pool] old(c15Own(stack, interpreter)) ==> c15Distinct(interpreter.intPool.pool)
+//@ ensures [own-sep] old(c15Own(stack, interpreter)) ==> c15Sep(stack, interpreter.intPool.pool)
+//@ ensures [ret] isnil(result0) && result1 == nil
+// ADDMOD: mu'[0] = 0 if mu[2] == 0, else (mu[0] + mu[1]) mod mu[2]  (the sum is not reduced modulo 2^256 first)
+//@ func opAddmod props C15
+//@ panics none
+//@ requires c15Pre3(stack, interpreter)
+//@ let n = len(stack.data)
+//@ let a = big(stack.data[n - 1])
+//@ let b = big(stack.data[n - 2])
+//@ let c = big(stack.data[n - 3])
+//@ modifies stack.data, stack.data[n - 3], big(stack.data[n - 1]), interpreter.intPool.pool.data, elems(interpreter.intPool.pool.data)
+//@ ensures [len] len(stack.data) == n - 2
+//@ ensures [result] big(stack.data[n - 3]) == (if c == 0 then 0 else (a + b) % c)
+//@ ensures [others] c15Keep(stack, n - 3)
+//@ ensures [own-base] old(c15Own(stack, interpreter)) ==> c15Base(stack, interpreter)
+//@ ensures [own-distinct] old(c15Own(stack, interpreter)) ==> c15Distinct(stack)
+//@ ensures [own-pool] old(c15Own(stack, interpreter)) ==> c15Distinct(interpreter.intPool.pool)
+//@ ensures [own-sep] old(c15Own(stack, interpreter)) ==> c15Sep(stack, interpreter.intPool.pool)
+//@ ensures [ret] isnil(result0) && result1 == nil
+// MULMOD: mu'[0] = 0 if mu[2] == 0, else (mu[0] * mu[1]) mod mu[2]  (the product is not reduced modulo 2^256 first)
+//@ func opMulmod props C15
+//@ panics none
+//@ requires c15Pre3(stack, interpreter)
+//@ let n = len(stack.data)
+//@ let a = big(stack.data[n - 1])
+//@ let b = big(stack.data[n - 2])
+//@ let c = big(stack.data[n - 3])
+//@ modifies stack.data, stack.data[n - 3], big(stack.data[n - 1]), interpreter.intPool.pool.data, elems(interpreter.intPool.pool.data)
+//@ ensures [len] len(stack.data) == n - 2
+//@ ensures [result] big(stack.data[n - 3]) == (if c == 0 then 0 else (a * b) % c)
+//@ ensures [others] c15Keep(stack, n - 3)
+//@ ensures [own-base] old(c15Own(stack, interpreter)) ==> c15Base(stack, interpreter)
+//@ ensures [own-distinct] old(c15Own(stack, interpreter)) ==> c15Distinct(stack)
+//@ ensures [own-pool] old(c15Own(stack, interpreter)) ==> c15Distinct(interpreter.intPool.pool)
+//@ ensures [own-sep] old(c15Own(stack, interpreter)) ==> c15Sep(stack, interpreter.intPool.pool)
+//@ ensures [ret] isnil(result0) && result1 == nil
+
+// Signed operations (Yellow Paper): operands read as two's complement (c15Sgn), result written back modulo 2^256.
+// SDIV: 0 if mu[1] == 0; else sgn(mu[0]/mu[1]) * floor(|mu[0]| / |mu[1]|); -2^255 / -1 = -2^255 (falls out of the reduction mod 2^256).
+//@ spec func c15Sdiv(a: int, b: int) int = let sa = c15Sgn(a) in let sb = c15Sgn(b) in
+//@     if sb == 0 then 0 else (let q = abs(sa) / abs(sb) in if (sa < 0) != (sb < 0) then -q else q) % 2^256
+// SMOD: 0 if mu[1] == 0; else sgn(mu[0]) * (|mu[0]| mod |mu[1]|)
+//@ spec func c15Smod(a: int, b: int) int = let sa = c15Sgn(a) in let sb = c15Sgn(b) in
+//@     if sb == 0 then 0 else (if sa < 0 then -(abs(sa) % abs(sb)) else abs(sa) % abs(sb)) % 2^256
+// SDIV. Both operands are popped; the result lives in an integer taken from the pool (or a new one); the operands
+// (or their signed copies) go to the pool. The asserts are stepping stones for the solver (each is proved, then used).
+//@ func opSdiv props C15
+//@ panics none
+//@ requires c15Pre2(stack, interpreter) && c15PoolTop(stack, interpreter)
+//@ let n = len(stack.data)
+//@ let a = big(stack.data[n - 1])
+//@ let b = big(stack.data[n - 2])
+//@ modifies stack.data, stack.data[n - 2], big(stack.data[n - 1]), big(stack.data[n - 2]), interpreter.intPool.pool.data, elems(interpreter.intPool.pool.data), big(interpreter.intPool.pool.data[len(interpreter.intPool.pool.data) - 1])
+//@ ensures [len] len(stack.data) == n - 1
+//@ ensures [result] big(stack.data[n - 2]) == c15Sdiv(a, b)
+//@ ensures [others] c15Keep(stack, n - 2)
+//@ assert after call S256#1: [x-apart] ret != nil && c15NotConst(ret) && c15NotBelow(ret, stack, n - 2) && big(ret) == c15Sgn(a)
+//@ assert after call S256#2: [y-apart] ret != nil && c15NotConst(ret) && c15NotBelow(ret, stack, n - 2) && big(ret) == c15Sgn(b)
+//@ assert after call (*intPool).getZero#1: [res-apart] ret != nil && c15NotConst(ret) && c15NotBelow(ret, stack, n - 2) && big(ret) == 0
+//@ assert before call (*intPool).put#1: [big-frame] forall r: *big.Int :: r < old(alloc()) && r != old(stack.data[n - 1]) && r != old(stack.data[n - 2]) && r != old(interpreter.intPool.pool.data[len(interpreter.intPool.pool.data) - 1]) ==> big(r) == old(big(r))
+//@ assert after call U256#1: [reduced] big(ret) == c15Sdiv(a, b)
+//@ ensures [own-base] old(c15Own(stack, interpreter)) ==> c15Base(stack, interpreter)
+//@ ensures [own-distinct] old(c15Own(stack, interpreter)) ==> c15Distinct(stack)
+//@ ensures [own-pool] old(c15Own(stack, interpreter)) ==> c15Distinct(interpreter.intPool.pool)
+//@ ensures [own-sep] old(c15Own(stack, interpreter)) ==> c15Sep(stack, interpreter.intPool.pool)
+//@ ensures [ret] isnil(result0) && result1 == nil
+// SMOD. Same data flow as SDIV.
+//@ func opSmod props C15
+//@ panics none
+//@ requires c15Pre2(stack, interpreter) && c15PoolTop(stack, interpreter)
+//@ let n = len(stack.data)
+//@ let a = big(stack.data[n - 1])
+//@ let b = big(stack.data[n - 2])
+//@ modifies stack.data, stack.data[n - 2], big(stack.data[n - 1]), big(stack.data[n - 2]), interpreter.intPool.pool.data, elems(interpreter.intPool.pool.data), big(interpreter.intPool.pool.data[len(interpreter.intPool.pool.data) - 1])
+//@ ensures [len] len(stack.data) == n - 1
+//@ ensures [result] big(stack.data[n - 2]) == c15Smod(a, b)
+//@ ensures [others] c15Keep(stack, n - 2)
+//@ assert after call S256#1: [x-apart] ret != nil && c15NotConst(ret) && c15NotBelow(ret, stack, n - 2) && big(ret) == c15Sgn(a)
+//@ assert after call S256#2: [y-apart] ret != nil && c15NotConst(ret) && c15NotBelow(ret, stack, n - 2) && big(ret) == c15Sgn(b)
+//@ assert after call (*intPool).getZero#1: [res-apart] ret != nil && c15NotConst(ret) && c15NotBelow(ret, stack, n - 2) && big(ret) == 0
+//@ assert before call (*intPool).put#1: [big-frame] forall r: *big.Int :: r < old(alloc()) && r != old(stack.data[n - 1]) && r != old(stack.data[n - 2]) && r != old(interpreter.intPool.pool.data[len(interpreter.intPool.pool.data) - 1]) ==> big(r) == old(big(r))
+//@ assert after call U256#1: [reduced] big(ret) == c15Smod(a, b)
+//@ ensures [own-base] old(c15Own(stack, interpreter)) ==> c15Base(stack, interpreter)
+//@ ensures [own-distinct] old(c15Own(stack, interpreter)) ==> c15Distinct(stack)
+//@ ensures [own-pool] old(c15Own(stack, interpreter)) ==> c15Distinct(interpreter.intPool.pool)
+//@ ensures [own-sep] old(c15Own(stack, interpreter)) ==> c15Sep(stack, interpreter.intPool.pool)
+//@ ensures [ret] isnil(result0) && result1 == nil
+
+// ---------------------------------------------------------------------------------------------------------------
+// Comparison opcodes
+// ---------------------------------------------------------------------------------------------------------------
+// LT: mu'[0] = 1 if mu[0] < mu[1] else 0
+//@ func opLt props C15
+//@ panics none
+//@ requires c15Pre2(stack, interpreter)
+//@ let n = len(stack.data)
+//@ let a = big(stack.data[n - 1])
+//@ let b = big(stack.data[n - 2])
+//@ modifies stack.data, big(stack.data[n - 2]), interpreter.intPool.pool.data, elems(interpreter.intPool.pool.data)
+//@ ensures [len] len(stack.data) == n - 1
+//@ ensures [result] big(stack.data[n - 2]) == (if a < b then 1 else 0)
+//@ ensures [others] c15Keep(stack, n - 2)
+//@ ensures [own-base] old(c15Own(stack, interpreter)) ==> c15Base(stack, interpreter)
+//@ ensures [own-distinct] old(c15Own(stack, interpreter)) ==> c15Distinct(stack)
+//@ ensures [own-pool] old(c15Own(stack, interpreter)) ==> c15Distinct(interpreter.intPool.pool)
+//@ ensures [own-sep] old(c15Own(stack, interpreter)) ==> c15Sep(stack, interpreter.intPool.pool)
+//@ ensures [ret] isnil(result0) && result1 == nil
+// GT: mu'[0] = 1 if mu[0] > mu[1] else 0
+//@ func opGt props C15
+//@ panics none
+//@ requires c15Pre2(stack, interpreter)
+//@ let n = len(stack.data)
+//@ let a = big(stack.data[n - 1])
+//@ let b = big(stack.data[n - 2])
+//@ modifies stack.data, big(stack.data[n - 2]), interpreter.intPool.pool.data, elems(interpreter.intPool.pool.data)
+//@ ensures [len] len(stack.data) == n - 1
+//@ ensures [result] big(stack.data[n - 2]) == (if a > b then 1 else 0)
+//@ ensures [others] c15Keep(stack, n - 2)
+//@ ensures [own-base] old(c15Own(stack, interpreter)) ==> c15Base(stack, interpreter)
+//@ ensures [own-distinct] old(c15Own(stack, interpreter)) ==> c15Distinct(stack)
+//@ ensures [own-pool] old(c15Own(stack, interpreter)) ==> c15Distinct(interpreter.intPool.pool)
+//@ ensures [own-sep] old(c15Own(stack, interpreter)) ==> c15Sep(stack, interpreter.intPool.pool)
+//@ ensures [ret] isnil(result0) && result1 == nil
+// SLT: signed comparison
+//@ func opSlt props C15
+//@ panics none
+//@ requires c15Pre2(stack, interpreter)
+//@ let n = len(stack.data)
+//@ let a = big(stack.data[n - 1])
+//@ let b = big(stack.data[n - 2])
+//@ modifies stack.data, big(stack.data[n - 2]), interpreter.intPool.pool.data, elems(interpreter.intPool.pool.data)
+//@ ensures [len] len(stack.data) == n - 1
+//@ ensures [result] big(stack.data[n - 2]) == (if c15Sgn(a) < c15Sgn(b) then 1 else 0)
+//@ ensures [others] c15Keep(stack, n - 2)
+//@ ensures [own-base] old(c15Own(stack, interpreter)) ==> c15Base(stack, interpreter)
+//@ ensures [own-distinct] old(c15Own(stack, interpreter)) ==> c15Distinct(stack)
+//@ ensures [own-pool] old(c15Own(stack, interpreter)) ==> c15Distinct(interpreter.intPool.pool)
+//@ ensures [own-sep] old(c15Own(stack, interpreter)) ==> c15Sep(stack, interpreter.intPool.pool)
+//@ ensures [ret] isnil(result0) && result1 == nil
+// SGT: signed comparison
+//@ func opSgt props C15
+//@ panics none
+//@ requires c15Pre2(stack, interpreter)
+//@ let n = len(stack.data)
+//@ let a = big(stack.data[n - 1])
+//@ let b = big(stack.data[n - 2])
+//@ modifies stack.data, big(stack.data[n - 2]), interpreter.intPool.pool.data, elems(interpreter.intPool.pool.data)
+//@ ensures [len] len(stack.data) == n - 1
+//@ ensures [result] big(stack.data[n - 2]) == (if c15Sgn(a) > c15Sgn(b) then 1 else 0)
+//@ ensures [others] c15Keep(stack, n - 2)
+//@ ensures [own-base] old(c15Own(stack, interpreter)) ==> c15Base(stack, interpreter)
+//@ ensures [own-distinct] old(c15Own(stack, interpreter)) ==> c15Distinct(stack)
+//@ ensures [own-pool] old(c15Own(stack, interpreter)) ==> c15Distinct(interpreter.intPool.pool)
+//@ ensures [own-sep] old(c15Own(stack, interpreter)) ==> c15Sep(stack, interpreter.intPool.pool)
+//@ ensures [ret] isnil(result0) && result1 == nil
+// EQ: mu'[0] = 1 if mu[0] == mu[1] else 0
+//@ func opEq props C15
+//@ panics none
+//@ requires c15Pre2(stack, interpreter)
+//@ let n = len(stack.data)
+//@ let a = big(stack.data[n - 1])
+//@ let b = big(stack.data[n - 2])
+//@ modifies stack.data, big(stack.data[n - 2]), interpreter.intPool.pool.data, elems(interpreter.intPool.pool.data)
+//@ ensures [len] len(stack.data) == n - 1
+//@ ensures [result] big(stack.data[n - 2]) == (if a == b then 1 else 0)
+//@ ensures [others] c15Keep(stack, n - 2)
+//@ ensures [own-base] old(c15Own(stack, interpreter)) ==> c15Base(stack, interpreter)
+//@ ensures [own-distinct] old(c15Own(stack, interpreter)) ==> c15Distinct(stack)
+//@ ensures [own-pool] old(c15Own(stack, interpreter)) ==> c15Distinct(interpreter.intPool.pool)
+//@ ensures [own-sep] old(c15Own(stack, interpreter)) ==> c15Sep(stack, interpreter.intPool.pool)
+//@ ensures [ret] isnil(result0) && result1 == nil
+// ISZERO: mu'[0] = 1 if mu[0] == 0 else 0  (in place, pool untouched)
+//@ func opIszero props C15
+//@ panics none
+//@ requires c15Pre1(stack, interpreter)
+//@ let n = len(stack.data)
+//@ let a = big(stack.data[n - 1])
+//@ modifies big(stack.data[n - 1])
+//@ ensures [len] len(stack.data) == n
+//@ ensures [result] big(stack.data[n - 1]) == (if a == 0 then 1 else 0)
+//@ ensures [others] c15Keep(stack, n - 1)
+//@ ensures [own-base] old(c15Own(stack, interpreter)) ==> c15Base(stack, interpreter)
+//@ ensures [own-distinct] old(c15Own(stack, interpreter)) ==> c15Distinct(stack)
+//@ ensures [own-pool] old(c15Own(stack, interpreter)) ==> c15Distinct(interpreter.intPool.pool)
+//@ ensures [own-sep] old(c15Own(stack, interpreter)) ==> c15Sep(stack, interpreter.intPool.pool)
+//@ ensures [ret] isnil(result0) && result1 == nil
+
+// ---------------------------------------------------------------------------------------------------------------
+// Bitwise opcodes. band/bor/bxor are math/big's And/Or/Xor (uninterpreted, see specs/stdlib/c15_math_big.spec):
+// proved here: operand order, destination slot, 256-bit range of the result, frame, ownership.
+// ---------------------------------------------------------------------------------------------------------------
+// AND: mu'[0] = mu[0] AND mu[1]
+//@ func opAnd props C15
+//@ panics none
+//@ requires c15Pre2(stack, interpreter)
+//@ let n = len(stack.data)
+//@ let a = big(stack.data[n - 1])
+//@ let b = big(stack.data[n - 2])
+//@ modifies stack.data, stack.data[n - 2], big(stack.data[n - 1]), interpreter.intPool.pool.data, elems(interpreter.intPool.pool.data)
+//@ ensures [len] len(stack.data) == n - 1
+//@ ensures [result] big(stack.data[n - 2]) == band(a, b)
+//@ ensures [others] c15Keep(stack, n - 2)
+//@ ensures [own-base] old(c15Own(stack, interpreter)) ==> c15Base(stack, interpreter)
+//@ ensures [own-distinct] old(c15Own(stack, interpreter)) ==> c15Distinct(stack)
+//@ ensures [own-pool] old(c15Own(stack, interpreter)) ==> c15Distinct(interpreter.intPool.pool)
+//@ ensures [own-sep] old(c15Own(stack, interpreter)) ==> c15Sep(stack, interpreter.intPool.pool)
+//@ ensures [ret] isnil(result0) && result1 == nil
+// OR: mu'[0] = mu[0] OR mu[1]   (math/big evaluates y.Or(x, y): operands in stack order)
+//@ func opOr props C15
+//@ panics none
+//@ requires c15Pre2(stack, interpreter)
+//@ let n = len(stack.data)
+//@ let a = big(stack.data[n - 1])
+//@ let b = big(stack.data[n - 2])
+//@ modifies stack.data, big(stack.data[n - 2]), interpreter.intPool.pool.data, elems(interpreter.intPool.pool.data)
+//@ ensures [len] len(stack.data) == n - 1
+//@ ensures [result] big(stack.data[n - 2]) == bor(a, b)
+//@ ensures [others] c15Keep(stack, n - 2)
+//@ ensures [own-base] old(c15Own(stack, interpreter)) ==> c15Base(stack, interpreter)
+//@ ensures [own-distinct] old(c15Own(stack, interpreter)) ==> c15Distinct(stack)
+//@ ensures [own-pool] old(c15Own(stack, interpreter)) ==> c15Distinct(interpreter.intPool.pool)
+//@ ensures [own-sep] old(c15Own(stack, interpreter)) ==> c15Sep(stack, interpreter.intPool.pool)
+//@ ensures [ret] isnil(result0) && result1 == nil
+// XOR: mu'[0] = mu[0] XOR mu[1]
+//@ func opXor props C15
+//@ panics none
+//@ requires c15Pre2(stack, interpreter)
+//@ let n = len(stack.data)
+//@ let a = big(stack.data[n - 1])
+//@ let b = big(stack.data[n - 2])
+//@ modifies stack.data, big(stack.data[n - 2]), interpreter.intPool.pool.data, elems(interpreter.intPool.pool.data)
+//@ ensures [len] len(stack.data) == n - 1
+//@ ensures [result] big(stack.data[n - 2]) == bxor(a, b)
+//@ ensures [others] c15Keep(stack, n - 2)
+//@ ensures [own-base] old(c15Own(stack, interpreter)) ==> c15Base(stack, interpreter)
+//@ ensures [own-distinct] old(c15Own(stack, interpreter)) ==> c15Distinct(stack)
+//@ ensures [own-pool] old(c15Own(stack, interpreter)) ==> c15Distinct(interpreter.intPool.pool)
+//@ ensures [own-sep] old(c15Own(stack, interpreter)) ==> c15Sep(stack, interpreter.intPool.pool)
+//@ ensures [ret] isnil(result0) && result1 == nil
+// NOT: mu'[0] = 2^256 - 1 - mu[0]   (bitwise complement of a 256-bit word; math/big's Not is -x-1, exact)
+//@ func opNot props C15
+//@ panics none
+//@ requires c15Pre1(stack, interpreter)
+//@ let n = len(stack.data)
+//@ let a = big(stack.data[n - 1])
+//@ modifies big(stack.data[n - 1])
+//@ ensures [len] len(stack.data) == n
+//@ ensures [result] big(stack.data[n - 1]) == 2^256 - 1 - a
+//@ ensures [others] c15Keep(stack, n - 1)
+//@ ensures [own-base] old(c15Own(stack, interpreter)) ==> c15Base(stack, interpreter)
+//@ ensures [own-distinct] old(c15Own(stack, interpreter)) ==> c15Distinct(stack)
+//@ ensures [own-pool] old(c15Own(stack, interpreter)) ==> c15Distinct(interpreter.intPool.pool)
+//@ ensures [own-sep] old(c15Own(stack, interpreter)) ==> c15Sep(stack, interpreter.intPool.pool)
+//@ ensures [ret] isnil(result0) && result1 == nil
+
+// ---------------------------------------------------------------------------------------------------------------
+// Shift opcodes. mu[0] = shift amount (a), mu[1] = value (b). c15Pow2(a) = 2^a.
+// NOTE: `defer interpreter.intPool.put(shift)` is not modelled by the engine (defer): the [own] clauses of SHL/SHR/SAR
+// are proved for the body without the deferred put (listed under not_decided).
+// ---------------------------------------------------------------------------------------------------------------
+// SHL: mu'[0] = (mu[1] * 2^mu[0]) mod 2^256, 0 for shifts >= 256
+//@ func opSHL props C15
+//@ panics none
+//@ requires c15Pre2(stack, interpreter)
+//@ let n = len(stack.data)
+//@ let a = big(stack.data[n - 1])
+//@ let b = big(stack.data[n - 2])
+//@ modifies stack.data, big(stack.data[n - 1]), big(stack.data[n - 2]), interpreter.intPool.pool.data, elems(interpreter.intPool.pool.data)
+//@ ensures [len] len(stack.data) == n - 1
+//@ ensures [result] big(stack.data[n - 2]) == (if a >= 256 then 0 else (b * c15Pow2(a)) % 2^256)
+//@ ensures [others] c15Keep(stack, n - 2)
+//@ assert after call U256#1: [shift-read] big(ret) == a
+//@ assert after call U256#2: [value-read] big(ret) == b
+//@ ensures [own-base] old(c15Own(stack, interpreter)) ==> c15Base(stack, interpreter)
+//@ ensures [own-distinct] old(c15Own(stack, interpreter)) ==> c15Distinct(stack)
+//@ ensures [own-pool] old(c15Own(stack, interpreter)) ==> c15Distinct(interpreter.intPool.pool)
+//@ ensures [own-sep] old(c15Own(stack, interpreter)) ==> c15Sep(stack, interpreter.intPool.pool)
+//@ ensures [ret] isnil(result0) && result1 == nil
+// SHR: mu'[0] = floor(mu[1] / 2^mu[0]), 0 for shifts >= 256
+//@ func opSHR props C15
+//@ panics none
+//@ requires c15Pre2(stack, interpreter)
+//@ let n = len(stack.data)
+//@ let a = big(stack.data[n - 1])
+//@ let b = big(stack.data[n - 2])
+//@ modifies stack.data, big(stack.data[n - 1]), big(stack.data[n - 2]), interpreter.intPool.pool.data, elems(interpreter.intPool.pool.data)
+//@ ensures [len] len(stack.data) == n - 1
+//@ ensures [result] big(stack.data[n - 2]) == (if a >= 256 then 0 else b / c15Pow2(a))
+//@ ensures [others] c15Keep(stack, n - 2)
+//@ assert after call U256#1: [shift-read] big(ret) == a
+//@ assert after call U256#2: [value-read] big(ret) == b
+//@ ensures [own-base] old(c15Own(stack, interpreter)) ==> c15Base(stack, interpreter)
+//@ ensures [own-distinct] old(c15Own(stack, interpreter)) ==> c15Distinct(stack)
+//@ ensures [own-pool] old(c15Own(stack, interpreter)) ==> c15Distinct(interpreter.intPool.pool)
+//@ ensures [own-sep] old(c15Own(stack, interpreter)) ==> c15Sep(stack, interpreter.intPool.pool)
+//@ ensures [ret] isnil(result0) && result1 == nil
+// SAR: mu'[0] = floor(sgn(mu[1]) / 2^mu[0]) as a 256-bit two's complement word; for shifts >= 256: 0 or 2^256-1 (sign fill)
+//@ func opSAR props C15
+//@ panics none
+//@ requires c15Pre2(stack, interpreter)
+//@ let n = len(stack.data)
+//@ let a = big(stack.data[n - 1])
+//@ let b = big(stack.data[n - 2])
+//@ modifies stack.data, stack.data[n - 2], big(stack.data[n - 1]), big(stack.data[n - 2]), interpreter.intPool.pool.data, elems(interpreter.intPool.pool.data)
+//@ ensures [len] len(stack.data) == n - 1
+//@ ensures [result] big(stack.data[n - 2]) == (if a >= 256 then (if c15Sgn(b) < 0 then 2^256 - 1 else 0) else ediv(c15Sgn(b), c15Pow2(a)) % 2^256)
+//@ ensures [others] c15Keep(stack, n - 2)
+//@ assert after call U256#1: [shift-read] big(ret) == a
+//@ assert after call S256#1: [value-read] ret != nil && c15NotConst(ret) && c15NotBelow(ret, stack, n - 2) && big(ret) == c15Sgn(b)
+//@ assert after call U256#2: [shifted] a < 256 && big(ret) == ediv(c15Sgn(b), c15Pow2(a)) % 2^256
+//@ assert after call U256#3: [filled] a >= 256 && big(ret) == (if c15Sgn(b) < 0 then 2^256 - 1 else 0)
+//@ ensures [own-base] old(c15Own(stack, interpreter)) ==> c15Base(stack, interpreter)
+//@ ensures [own-distinct] old(c15Own(stack, interpreter)) ==> c15Distinct(stack)
+//@ ensures [own-pool] old(c15Own(stack, interpreter)) ==> c15Distinct(interpreter.intPool.pool)
+//@ ensures [own-sep] old(c15Own(stack, interpreter)) ==> c15Sep(stack, interpreter.intPool.pool)
+//@ ensures [ret] isnil(result0) && result1 == nil
+
+// ---------------------------------------------------------------------------------------------------------------
+// Stack manipulation opcodes
+// ---------------------------------------------------------------------------------------------------------------
+
+// POP: drop the top slot (its reference goes to the pool), nothing else changes.
+//@ func opPop props C15
+//@ panics none
+//@ requires c15Pre1(stack, interpreter)
+//@ let n = len(stack.data)
+//@ let a = big(stack.data[n - 1])
+//@ modifies stack.data, interpreter.intPool.pool.data, elems(interpreter.intPool.pool.data)
+//@ ensures [len] len(stack.data) == n - 1
+//@ ensures [others] c15Keep(stack, n - 1)
+//@ ensures [own-base] old(c15Own(stack, interpreter)) ==> c15Base(stack, interpreter)
+//@ ensures [own-distinct] old(c15Own(stack, interpreter)) ==> c15Distinct(stack)
+//@ ensures [own-pool] old(c15Own(stack, interpreter)) ==> c15Distinct(interpreter.intPool.pool)
+//@ ensures [own-sep] old(c15Own(stack, interpreter)) ==> c15Sep(stack, interpreter.intPool.pool)
+//@ ensures [ret] isnil(result0) && result1 == nil
+
+// dup(pool, n): push a COPY of the n-th slot from the top (1 = top): the new top is an integer taken from the pool
+// (or a new one) set to that slot's value — never the slot's own reference.
+//@ func (*Stack).dup props C15
+//@ panics none
+//@ requires st != nil && pool != nil && c15Apart(st, pool.pool) && 1 <= n && n <= len(st.data) && len(st.data) < 2^62 && len(pool.pool.data) < 2^62
+//@ requires st.data[len(st.data) - n] != nil
+//@ requires len(pool.pool.data) > 0 ==> pool.pool.data[len(pool.pool.data) - 1] != nil
+//@ let m = len(st.data)
+//@ let pn = len(pool.pool.data)
+//@ modifies st.data, elems(st.data), pool.pool.data, big(pool.pool.data[len(pool.pool.data) - 1])
+//@ ensures [len] len(st.data) == m + 1 && off(st.data) == old(off(st.data))
+//@ ensures [content] elems(st.data) == store(old(elems(st.data)), old(off(st.data) + len(st.data)), st.data[m])
+//@ ensures [top-recycled] pn > 0 ==> st.data[m] == old(pool.pool.data[len(pool.pool.data) - 1]) && pool.pool.data == old(pool.pool.data[:len(pool.pool.data) - 1])
+//@ ensures [top-new] pn == 0 ==> fresh(st.data[m]) && pool.pool.data == old(pool.pool.data) && big(old(pool.pool.data[len(pool.pool.data) - 1])) == old(big(pool.pool.data[len(pool.pool.data) - 1]))
+//@ ensures [value] big(st.data[m]) == old(big(st.data[len(st.data) - n]))
+//@ ensures [in-place] old(len(st.data)) < old(cap(st.data)) && old(base(st.data)) != 0 ==> base(st.data) == old(base(st.data)) && cap(st.data) == old(cap(st.data))
+//@ ensures [realloc] !(old(len(st.data)) < old(cap(st.data)) && old(base(st.data)) != 0) ==> fresh(st.data) && cap(st.data) >= len(st.data)
+
+// DUPn (n = size, captured by the closure): mu'[0] = mu[n-1], everything else stays.
+//@ func makeDup$1 props C15
+//@ panics ignored      // the captured variable's address cannot be named in a contract (its nil check is unprovable); index/slice bounds of the callees are call-site obligations and stay proved
+//@ requires c15Base(stack, interpreter) && c15PoolTop(stack, interpreter) && 1 <= size && size <= len(stack.data) && len(stack.data) < 1024
+//@ let n = len(stack.data)
+//@ let v = big(stack.data[n - size])
+//@ modifies stack.data, elems(stack.data), interpreter.intPool.pool.data, big(interpreter.intPool.pool.data[len(interpreter.intPool.pool.data) - 1])
+//@ ensures [len] len(stack.data) == n + 1
+//@ ensures [result] big(stack.data[n]) == v
+//@ ensures [others] c15Keep(stack, n)
+//@ ensures [own-base] old(c15Own(stack, interpreter)) ==> c15Base(stack, interpreter)
+//@ ensures [own-distinct] old(c15Own(stack, interpreter)) ==> c15Distinct(stack)
+//@ ensures [own-pool] old(c15Own(stack, interpreter)) ==> c15Distinct(interpreter.intPool.pool)
+//@ ensures [own-sep] old(c15Own(stack, interpreter)) ==> c15Sep(stack, interpreter.intPool.pool)
+//@ ensures [ret] isnil(result0) && result1 == nil
+
+// all slots of s except the absolute cells i and j keep reference and value
+//@ spec func c15KeepBut2(s: *Stack, i: int, j: int) bool =
+//@     off(s.data) == old(off(s.data)) && len(s.data) == old(len(s.data)) &&
+//@     forall k: int :: c15In(s, k) && k != i && k != j ==>
+//@         elems(s.data)[k] == old(elems(s.data)[k]) && big(elems(s.data)[k]) == old(big(elems(s.data)[k]))
+
+// SWAPn: the closure captures size = n + 1 (makeSwap increments before building it): the top slot and the size-th slot
+// from the top (1 = top) exchange their references, hence their values; no integer is written.
+//@ func makeSwap$1 props C15
+//@ panics ignored      // the captured variable's address cannot be named in a contract (its nil check is unprovable); index/slice bounds of the callees are call-site obligations and stay proved
+//@ requires c15Base(stack, interpreter) && 2 <= size && size <= len(stack.data)
+//@ let n = len(stack.data)
+//@ let a = big(stack.data[n - 1])
+//@ let b = big(stack.data[n - size])
+//@ modifies stack.data[n - size], stack.data[n - 1]
+//@ ensures [len] len(stack.data) == n
+//@ ensures [result] big(stack.data[n - 1]) == b && big(stack.data[n - size]) == a
+//@ ensures [refs] stack.data[n - 1] == old(stack.data[n - size]) && stack.data[n - size] == old(stack.data[n - 1])
+//@ ensures [others] c15KeepBut2(stack, off(stack.data) + n - 1, off(stack.data) + n - size)
+//@ ensures [own-base] old(c15Own(stack, interpreter)) ==> c15Base(stack, interpreter)
+//@ ensures [own-distinct] old(c15Own(stack, interpreter)) ==> c15Distinct(stack)
+//@ ensures [own-pool] old(c15Own(stack, interpreter)) ==> c15Distinct(interpreter.intPool.pool)
+//@ ensures [own-sep] old(c15Own(stack, interpreter)) ==> c15Sep(stack, interpreter.intPool.pool)
+//@ ensures [ret] isnil(result0) && result1 == nil
+
+// PUSHn (pushByteSize = n, size = n + 1 captured): a new top holding a 256-bit word; pc advances by size. Which word
+// (the big-endian reading of the next n code bytes, zero padded on the right) is math/big.SetBytes' business: not decided.
+//@ func makePush$1 props C15
+//@ panics ignored      // the captured variable's address cannot be named in a contract (its nil check is unprovable); index/slice bounds of the callees are call-site obligations and stay proved
+//@ opt abstract-slices       // the padded code bytes are not needed: SetBytes' result is unspecified anyway
+//@ requires c15Base(stack, interpreter) && c15PoolTop(stack, interpreter) && len(stack.data) < 1024
+//@ requires pc != nil && contract != nil && *pc < 2^62 && 0 <= pushByteSize && pushByteSize <= 32
+//@ let n = len(stack.data)
+//@ let size0 = size                   // the captured step (entry value)
+//@ let a = big(stack.data[n - 1])     // (first mention of the slot heap outside a quantifier, see engine_requests/C15.md #6)
+//@ modifies *pc, stack.data, elems(stack.data), interpreter.intPool.pool.data, big(interpreter.intPool.pool.data[len(interpreter.intPool.pool.data) - 1])
+//@ ensures [len] len(stack.data) == n + 1
+//@ ensures [word] 0 <= big(stack.data[n]) && big(stack.data[n]) < 2^256
+//@ ensures [others] c15Keep(stack, n)
+//@ ensures [pc] *pc == wrap64(old(*pc) + size0)
+//@ ensures [own-base] old(c15Own(stack, interpreter)) ==> c15Base(stack, interpreter)
+//@ ensures [own-distinct] old(c15Own(stack, interpreter)) ==> c15Distinct(stack)
+//@ ensures [own-pool] old(c15Own(stack, interpreter)) ==> c15Distinct(interpreter.intPool.pool)
+//@ ensures [own-sep] old(c15Own(stack, interpreter)) ==> c15Sep(stack, interpreter.intPool.pool)
+//@ ensures [ret] isnil(result0) && result1 == nil
+
+// ---------------------------------------------------------------------------------------------------------------
+// Opcodes whose functional result is out of reach (word-level bit tricks / exponentiation loop): stack discipline,
+// range of the result, frame and ownership only.
+// ---------------------------------------------------------------------------------------------------------------
+
+// BYTE: mu'[0] = 0 when mu[0] >= 32 (decided); otherwise the mu[0]-th byte of mu[1] — only its range is decided.
+//@ func opByte props C15
+//@ panics none
+//@ requires c15Pre2(stack, interpreter)
+//@ let n = len(stack.data)
+//@ let a = big(stack.data[n - 1])
+//@ modifies stack.data, big(stack.data[n - 2]), interpreter.intPool.pool.data, elems(interpreter.intPool.pool.data)
+//@ ensures [len] len(stack.data) == n - 1
+//@ ensures [out-of-range] a >= 32 ==> big(stack.data[n - 2]) == 0
+//@ ensures [byte] 0 <= big(stack.data[n - 2]) && big(stack.data[n - 2]) < 256
+//@ ensures [others] c15Keep(stack, n - 2)
+//@ ensures [own-base] old(c15Own(stack, interpreter)) ==> c15Base(stack, interpreter)
+//@ ensures [own-distinct] old(c15Own(stack, interpreter)) ==> c15Distinct(stack)
+//@ ensures [own-pool] old(c15Own(stack, interpreter)) ==> c15Distinct(interpreter.intPool.pool)
+//@ ensures [own-sep] old(c15Own(stack, interpreter)) ==> c15Sep(stack, interpreter.intPool.pool)
+//@ ensures [ret] isnil(result0) && result1 == nil
+
+// SIGNEXTEND: for mu[0] >= 31 the value mu[1] is left as it is (decided); otherwise the new top is some 256-bit word
+// (which one: not decided).
+//@ func opSignExtend props C15
+//@ panics none
+//@ requires c15Pre2(stack, interpreter)
+//@ let n = len(stack.data)
+//@ let a = big(stack.data[n - 1])
+//@ modifies stack.data, stack.data[n - 2], big(stack.data[n - 1]), big(stack.data[n - 2]), interpreter.intPool.pool.data, elems(interpreter.intPool.pool.data)
+//@ ensures [len] len(stack.data) == n - 1
+//@ ensures [no-op] a >= 31 ==> c15Keep(stack, n - 1)
+//@ ensures [word] 0 <= big(stack.data[n - 2]) && big(stack.data[n - 2]) < 2^256
+//@ ensures [others] c15Keep(stack, n - 2)
+//@ ensures [own-base] old(c15Own(stack, interpreter)) ==> c15Base(stack, interpreter)
+//@ ensures [own-distinct] old(c15Own(stack, interpreter)) ==> c15Distinct(stack)
+//@ ensures [own-pool] old(c15Own(stack, interpreter)) ==> c15Distinct(interpreter.intPool.pool)
+//@ ensures [own-sep] old(c15Own(stack, interpreter)) ==> c15Sep(stack, interpreter.intPool.pool)
+//@ ensures [ret] isnil(result0) && result1 == nil
+
+// EXP: the new top is a new integer holding a 256-bit word (math.Exp); that it is mu[0]^mu[1] mod 2^256 is not decided.
+//@ func opExp props C15
+//@ panics none
+//@ requires c15Pre2(stack, interpreter)
+//@ let n = len(stack.data)
+//@ let a = big(stack.data[n - 1])
+//@ modifies stack.data, stack.data[n - 2], big(stack.data[n - 1]), interpreter.intPool.pool.data, elems(interpreter.intPool.pool.data)
+//@ ensures [len] len(stack.data) == n - 1
+//@ ensures [word] 0 <= big(stack.data[n - 2]) && big(stack.data[n - 2]) < 2^256
+//@ ensures [others] c15Keep(stack, n - 2)
+//@ ensures [own-base] old(c15Own(stack, interpreter)) ==> c15Base(stack, interpreter)
+//@ ensures [own-distinct] old(c15Own(stack, interpreter)) ==> c15Distinct(stack)
+//@ ensures [own-pool] old(c15Own(stack, interpreter)) ==> c15Distinct(interpreter.intPool.pool)
+//@ ensures [own-sep] old(c15Own(stack, interpreter)) ==> c15Sep(stack, interpreter.intPool.pool)
+//@ ensures [ret] isnil(result0) && result1 == nil
+
+// ---------------------------------------------------------------------------------------------------------------
+// Memory opcodes: stack discipline, frame and ownership only. That MLOAD reads back what MSTORE wrote needs a byte
+// level model of Set32/ReadBits/SetBytes as inverse big-endian codecs: not decided. Out-of-range memory accesses
+// (the interpreter resizes memory before execute) are outside these contracts: panics ignored.
+// ---------------------------------------------------------------------------------------------------------------
+
+// MLOAD: the offset slot is replaced by a 256-bit word held in an integer from the pool (or a new one); the offset's
+// reference goes to the pool.
+//@ func opMload props C15
+//@ opt abstract-slices
+//@ requires c15Pre1(stack, interpreter) && c15PoolTop(stack, interpreter) && memory != nil
+//@ let n = len(stack.data)
+//@ let a = big(stack.data[n - 1])
+//@ modifies stack.data, stack.data[n - 1], interpreter.intPool.pool.data, elems(interpreter.intPool.pool.data), big(interpreter.intPool.pool.data[len(interpreter.intPool.pool.data) - 1])
+//@ ensures [len] len(stack.data) == n
+//@ ensures [word] 0 <= big(stack.data[n - 1]) && big(stack.data[n - 1]) < 2^256
+//@ ensures [others] c15Keep(stack, n - 1)
+//@ ensures [own-base] old(c15Own(stack, interpreter)) ==> c15Base(stack, interpreter)
+//@ ensures [own-distinct] old(c15Own(stack, interpreter)) ==> c15Distinct(stack)
+//@ ensures [own-pool] old(c15Own(stack, interpreter)) ==> c15Distinct(interpreter.intPool.pool)
+//@ ensures [own-sep] old(c15Own(stack, interpreter)) ==> c15Sep(stack, interpreter.intPool.pool)
+//@ ensures [ret] isnil(result0) && result1 == nil
+
+// Set32: writes bytes of the memory store only (returns normally only if offset+32 is within the store).
+//@ func (*Memory).Set32 props C15
+//@ opt abstract-slices
+//@ requires m != nil && val != nil
+//@ modifies elems(m.store)
+
+// MSTORE: two slots popped (both references pooled); only memory bytes are written besides.
+//@ func opMstore props C15
+//@ opt abstract-slices
+//@ requires c15Pre2(stack, interpreter) && memory != nil
+//@ let n = len(stack.data)
+//@ let a = big(stack.data[n - 1])
+//@ modifies stack.data, interpreter.intPool.pool.data, elems(interpreter.intPool.pool.data), elems(memory.store)
+//@ ensures [len] len(stack.data) == n - 2
+//@ ensures [others] c15Keep(stack, n - 2)
+//@ ensures [own-base] old(c15Own(stack, interpreter)) ==> c15Base(stack, interpreter)
+//@ ensures [own-distinct] old(c15Own(stack, interpreter)) ==> c15Distinct(stack)
+//@ ensures [own-pool] old(c15Own(stack, interpreter)) ==> c15Distinct(interpreter.intPool.pool)
+//@ ensures [own-sep] old(c15Own(stack, interpreter)) ==> c15Sep(stack, interpreter.intPool.pool)
+//@ ensures [ret] isnil(result0) && result1 == nil
+
+// MSTORE8: two slots popped (references dropped, not pooled); one memory byte written.
+//@ func opMstore8 props C15
+//@ requires c15Pre2(stack, interpreter) && memory != nil
+//@ let n = len(stack.data)
+//@ let a = big(stack.data[n - 1])
+//@ modifies stack.data, elems(memory.store)
+//@ ensures [len] len(stack.data) == n - 2
+//@ ensures [others] c15Keep(stack, n - 2)
+//@ ensures [own-base] old(c15Own(stack, interpreter)) ==> c15Base(stack, interpreter)
+//@ ensures [own-distinct] old(c15Own(stack, interpreter)) ==> c15Distinct(stack)
+//@ ensures [own-pool] old(c15Own(stack, interpreter)) ==> c15Distinct(interpreter.intPool.pool)
+//@ ensures [own-sep] old(c15Own(stack, interpreter)) ==> c15Sep(stack, interpreter.intPool.pool)
+//@ ensures [ret] isnil(result0) && result1 == nil
+
+// ---------------------------------------------------------------------------------------------------------------
+// Gas / stack table of the computational groups ("charges the specified gas"; the stack bounds are what the
+// interpreter checks before it calls execute). The specification table is written here (Yellow Paper appendix G/H,
+// unchanged up to Istanbul for these opcodes); the ensures are proved about the REAL constructor functions.
+// Row(op, gas, pops, pushes): valid, constantGas == gas, minStack == pops, maxStack == 1024 + pops - pushes.
+// ---------------------------------------------------------------------------------------------------------------
+//@ spec func c15Row(t: JumpTable, op: int, gas: int, pops: int, pushes: int) bool =
+//@     t[op].valid && t[op].constantGas == gas && t[op].minStack == pops && t[op].maxStack == 1024 + pops - pushes
+
+// W_verylow = 3, W_low = 5, W_mid = 8, W_base = 2, G_jumpdest = 1. EXP: constantGas is 0 in this code base, the whole
+// charge (G_exp + G_expbyte * bytes) is computed by the dynamic gas function gasExp (dynamic gas: not covered).
+//@ spec func c15TableArith(t: JumpTable) bool =
+//@     c15Row(t, ADD, 3, 2, 1) && c15Row(t, MUL, 5, 2, 1) && c15Row(t, SUB, 3, 2, 1) && c15Row(t, DIV, 5, 2, 1) &&
+//@     c15Row(t, SDIV, 5, 2, 1) && c15Row(t, MOD, 5, 2, 1) && c15Row(t, SMOD, 5, 2, 1) && c15Row(t, ADDMOD, 8, 3, 1) &&
+//@     c15Row(t, MULMOD, 8, 3, 1) && c15Row(t, EXP, 0, 2, 1) && c15Row(t, SIGNEXTEND, 5, 2, 1)
+//@ spec func c15TableCmpBit(t: JumpTable) bool =
+//@     c15Row(t, LT, 3, 2, 1) && c15Row(t, GT, 3, 2, 1) && c15Row(t, SLT, 3, 2, 1) && c15Row(t, SGT, 3, 2, 1) &&
+//@     c15Row(t, EQ, 3, 2, 1) && c15Row(t, ISZERO, 3, 1, 1) && c15Row(t, AND, 3, 2, 1) && c15Row(t, OR, 3, 2, 1) &&
+//@     c15Row(t, XOR, 3, 2, 1) && c15Row(t, NOT, 3, 1, 1) && c15Row(t, BYTE, 3, 2, 1)
+//@ spec func c15TableStackMem(t: JumpTable) bool =
+//@     c15Row(t, POP, 2, 1, 0) && c15Row(t, MLOAD, 3, 1, 1) && c15Row(t, MSTORE, 3, 2, 0) && c15Row(t, MSTORE8, 3, 2, 0) &&
+//@     c15Row(t, JUMPDEST, 1, 0, 0) &&
+//@     (forall k: int :: 0 <= k && k < 32 ==> c15Row(t, PUSH1 + k, 3, 0, 1)) &&
+//@     (forall k: int :: 0 <= k && k < 16 ==> c15Row(t, DUP1 + k, 3, k + 1, k + 2)) &&
+//@     (forall k: int :: 0 <= k && k < 16 ==> c15Row(t, SWAP1 + k, 3, k + 2, k + 2))
+//@ spec func c15TableShift(t: JumpTable) bool =
+//@     c15Row(t, SHL, 3, 2, 1) && c15Row(t, SHR, 3, 2, 1) && c15Row(t, SAR, 3, 2, 1)
+
+//@ func newFrontierInstructionSet props C15
+//@ modifies nothing
+//@ ensures [arith] c15TableArith(result)
+//@ ensures [cmp-bit] c15TableCmpBit(result)
+//@ ensures [stack-mem] c15TableStackMem(result)
+
+// Later instruction sets are copies with additions; the rows of the computational groups must survive every step.
+//@ func newHomesteadInstructionSet props C15
+//@ modifies nothing
+//@ ensures [arith] c15TableArith(result)
+//@ ensures [cmp-bit] c15TableCmpBit(result)
+//@ ensures [stack-mem] c15TableStackMem(result)
+
+//@ func newByzantiumInstructionSet props C15
+//@ modifies nothing
+//@ ensures [arith] c15TableArith(result)
+//@ ensures [cmp-bit] c15TableCmpBit(result)
+//@ ensures [stack-mem] c15TableStackMem(result)
+
+// Constantinople adds SHL, SHR, SAR (EIP-145: W_verylow).
+//@ func newConstantinopleInstructionSet props C15
+//@ modifies nothing
+//@ ensures [arith] c15TableArith(result)
+//@ ensures [cmp-bit] c15TableCmpBit(result)
+//@ ensures [stack-mem] c15TableStackMem(result)
+//@ ensures [shift] c15TableShift(result)
+
+// Istanbul is the table the node runs (GetJumpTable returns the package variable initialised with this result).
+//@ func newIstanbulInstructionSet props C15
+//@ modifies nothing
+//@ ensures [arith] c15TableArith(result)
+//@ ensures [cmp-bit] c15TableCmpBit(result)
+//@ ensures [stack-mem] c15TableStackMem(result)
+//@ ensures [shift] c15TableShift(result)
